@@ -21,7 +21,7 @@ CLAIMS = {
         "technique": T_MITER,
     },
     "C04": {
-        "text": "Proved for all operand word patterns: the five * bodies are bit-identical to Alg. 9 (DWTimesFP3) / Alg. 12 (DWTimesDW3) over new_mul, fast_two_sum and the fma primitive; proved for valid in-range operands: zero factor => (0,0), x*(+-1) == +-x in every spelling, x*2^k exact when lo*2^k does not underflow; results valid (C01). The 2u^2 / 5u^2 bounds follow from the published theorems (assumed lemma) given that new_mul is an exact 2Prod (proved: hi == RN(ab) and hi + lo == ab exactly, all inputs of the domain). Model-agreement obligation: corrected fma model == hardware fma on 240 seeded triples. Thorough tier: the 2u^2 bound of Algorithm 9 (TwoFloat * f64) is mechanised per gap between the exponent fields of the multiplicand's words (ghost values, exact 53 x 53 product of xl * y; a seed-rotated subset per run, the evidence lists the gaps discharged).",
+        "text": "Proved for all operand word patterns: the five * bodies are bit-identical to Alg. 9 (DWTimesFP3) / Alg. 12 (DWTimesDW3) over new_mul, fast_two_sum and the fma primitive; proved for valid in-range operands: zero factor => (0,0), x*(+-1) == +-x in every spelling, x*2^k exact when lo*2^k does not underflow; results valid (C01). The 2u^2 / 5u^2 bounds follow from the published theorems (assumed lemma) given that new_mul is an exact 2Prod (proved: hi == RN(ab) and hi + lo == ab exactly, all inputs of the domain). Model-agreement obligation: corrected fma model == hardware fma on 240 seeded triples. Thorough tier: the 2u^2 bound of Algorithm 9 (TwoFloat * f64) is mechanised with ghost values and an exact 53 x 53 product of xl * y for the cases that close: low word at the half-ulp tie (gap 53), gaps 103, 105, 106, 107, 110 and the far case (low word zero or more than 112 binades down); gaps 54..102 time out (> 90 min each) and keep the published theorem as an assumed lemma.",
         "note": TB + "Assumed lemmas: error bounds of Alg. 9 / Alg. 12. CBMC's fma is wrong for an exact-zero factor with a large-exponent cofactor (found here, reproduced standalone); value obligations install a corrected model, miters are insensitive to the model.",
         "technique": T_MITER,
     },
